@@ -191,8 +191,35 @@ func Cmp(a, b V) int {
 // SameType is the language's "same type class" used by ==.
 func SameType(a, b V) bool { return a.K == b.K }
 
-// Equal is the language's ==: same type and order-equivalent.
-func Equal(a, b V) bool { return SameType(a, b) && Cmp(a, b) == 0 }
+// Equal is the language's ==: same type and order-equivalent, at every level of a container ([1] is not [1.0]).
+func Equal(a, b V) bool {
+	if !SameType(a, b) {
+		return false
+	}
+	switch a.K {
+	case Arr:
+		if len(a.A) != len(b.A) {
+			return false
+		}
+		for i := range a.A {
+			if !Equal(a.A[i], b.A[i]) {
+				return false
+			}
+		}
+		return true
+	case Map:
+		if len(a.M) != len(b.M) {
+			return false
+		}
+		for i := range a.M {
+			if !Equal(a.M[i].K, b.M[i].K) || !Equal(a.M[i].V, b.M[i].V) {
+				return false
+			}
+		}
+		return true
+	}
+	return Cmp(a, b) == 0
+}
 
 // Identical is structural identity including type, NaN==NaN, and -0 distinguished from +0.
 func Identical(a, b V) bool {
